@@ -4,6 +4,8 @@ CONSTANTS
   Streams = {"t1","t2"}
   Sizes = {0,1,3}
   Limits = {1,2,4}
+  Iters = {}
+  CoverIdxN = 0
   DefaultMax = 100
   MaxAppends = 3
 CONSTRAINT Bound
